@@ -24,7 +24,9 @@ from .paths import Explorer, PathBound
 from .npproxy import symbolic_mode
 
 VERIF = os.path.dirname(os.path.dirname(os.path.abspath(__file__)))
-REPO_SRC = "/repo/src/felupe"
+# developer switch for evaluating seeded changes in a scratch worktree; registered commands never set it
+REPO = os.environ.get("VERIF_ALT_REPO", "/repo").rstrip("/")
+REPO_SRC = REPO + "/src/felupe"
 
 
 class HarnessError(RuntimeError):
@@ -109,6 +111,15 @@ class Ctx:
             d = None if default is None else float(np.asarray(default)[i])
             A[i] = self.var(name + "".join("_%d" % k for k in i), lo, hi, d)
         return A
+
+    def adopt(self, arr, lo, hi):
+        """symbols created by a contract stub (fresh eigenvalues, ...) get the stub's documented range as box + assumption"""
+        if not self.sym:
+            return
+        for x in np.asarray(arr, dtype=object).reshape(-1):
+            n = getattr(x, "n", None)
+            if n is not None and n.op == "v":
+                self.var(n.args[0], lo, hi)
 
     def symmetric(self, name, n, lo=None, hi=None):
         A = np.empty((n, n), dtype=object if self.sym else float)
@@ -374,7 +385,7 @@ class FuncTracker:
     def _cb(self, code, offset):
         fn = code.co_filename
         if fn.startswith(REPO_SRC):
-            self.seen.add((fn[len("/repo/") :], code.co_qualname))
+            self.seen.add((fn[len(REPO) + 1 :], code.co_qualname))
         return sys.monitoring.DISABLE
 
     def stop(self):
@@ -956,6 +967,9 @@ class CaseRunner:
             if side_ok:
                 continue
             r = self.solve(em.script(base_asserts + [cond]), "z3", self.budget.cex_timeout)
+            if r.status == "timeout":
+                # wall-clock budgets depend on machine load: one retry with a 4x budget before giving up
+                r = self.solve(em.script(base_asserts + [cond]), "z3", 4 * self.budget.cex_timeout)
             if r.status != "unsat":
                 break
         else:
@@ -984,6 +998,10 @@ class CaseRunner:
                     info = norm.gen_info[g]
                     if self._boxes(norm, ctx, ob, {g}) is None:
                         missing.append(info.get("name"))
+                # a float witness confirmed by the solver with pinned variables does not need boxes
+                sv = self.sampled_violation()
+                if sv is not None:
+                    return False, sv
                 self._record(ob, pi, "inconclusive", "Q-tol", "no box for generators %s of entry %s" % (missing[:5], ob.labels[k]))
                 self.inconclusive.append({"obligation": ob.name, "reason": "Q-tol without box"})
                 return False, None
